@@ -807,6 +807,12 @@ def r11_format_arity(chk):
     common.format_arity(chk, 'C07.R11', sorted(r for r in chk.model.modules if r.startswith('pysmi/')), floor=60)
 
 
+
+def r_absent_values_C07_R12(chk):
+    """optional clause parts are used where they are present, not where they are absent"""
+    common.no_value_taken_from_an_absent_operand(chk, 'C07.R12', sorted(r for r in chk.model.modules if r.startswith('pysmi/')), floor=2)
+
+
 RULES = [r9_wellformedness, r1_containment, r2_no_package_raise_escapes, r3_status_values, r4_no_silent_drop, r4b_popped_name_accounted,
          r5_failed_result_pairing, r6_single_writer_site, r7_foreign_exceptions,
-         r8_closure_discovery, t1_typestate, r10_generators_start_clean, r11_format_arity]
+         r8_closure_discovery, t1_typestate, r10_generators_start_clean, r11_format_arity, r_absent_values_C07_R12]
